@@ -409,6 +409,23 @@ class SliceModel:
                 out.add(c.bb)
         return out
 
+    def _is_char_peek(self, g):
+        """`self.chars.as_str().chars().next()`: the next unread character, read off a fresh iterator over the rest"""
+        if not g.locals[0]['ty'].startswith('std::option::Option<char>') or g.arg_count != 1:
+            return False
+        os_ = trace_local(g, 0, (), through_calls=set())
+        if len(os_) != 1:
+            return False
+        o = next(iter(os_))
+        if o.kind != 'callres' or o.proj or not (o.data.rdef or '').endswith("as std::iter::Iterator>::next") or 'std::str::Chars<' not in (o.data.rdef or ''):
+            return False
+        it = single_origin(trace_operand(g, o.data.args[0], through_calls=set()))
+        if it is None or it.kind != 'callres' or it.proj or it.data.callee != 'core::str::<impl str>::chars':
+            return False
+        so = single_origin(trace_operand(g, it.data.args[0], through_calls=set()))
+        return so is not None and so.kind == 'callres' and not so.proj and (so.data.callee or '').endswith("CharIndices::<'a>::as_str") \
+            and self._is_self_field(g, so.data.args[0], self.chars_idx)
+
     def _is_position(self, g):
         """returns the index of the next unread character: item.0 of a look at a clone of the iterator, else input.len()"""
         if g.locals[0]['ty'] != 'usize':
@@ -443,10 +460,16 @@ class SliceModel:
     def _pos_and_peek(self, body, ao, co):
         if ao.kind != 'callres' or co.kind != 'callres' or ao.proj or ao.data.ruid is None or co.data.ruid is None:
             return False
-        if co.proj[-3:] != (('dc', 'Some'), ('f', 0), ('f', 1)):
-            return False
         P, C = self.prog.by_id.get(co.data.ruid), self.prog.by_id.get(ao.data.ruid)
-        if P is None or C is None or not self._is_peek(P) or not self._is_position(C):
+        if P is None or C is None or not self._is_position(C):
+            return False
+        if co.proj[-3:] == (('dc', 'Some'), ('f', 0), ('f', 1)):
+            if not self._is_peek(P):
+                return False
+        elif co.proj[-2:] == (('dc', 'Some'), ('f', 0)):
+            if not self._is_char_peek(P):
+                return False
+        else:
             return False
         # both on the same tokenizer
         ra = trace_operand(body, ao.data.args[0], through_calls=set())
